@@ -247,7 +247,33 @@ fn run_generic<S: mdk_storage_traits::MdkStorageProvider + Send + Sync + 'static
         let _ = model.apply(&op, now);
     }
     let mut counter = 0u8;
-    let plans: Vec<Vec<StOp>> = (0..n_threads).map(|t| gen_thread_ops(&mut r, per, t, &mut counter)).collect();
+    let mut plans: Vec<Vec<StOp>> = (0..n_threads).map(|t| gen_thread_ops(&mut r, per, t, &mut counter)).collect();
+    // motifs (half of the runs): a sequential prelude, then two racing calls at the head of two
+    // threads' plans. A: a rollback onto a routing id the group has left races another group
+    // taking that id (exactly one of the two may succeed). B: re-taking a snapshot races the
+    // rollback to the snapshot of that name.
+    let motif = r.below(4);
+    let g0 = |nostr: u8, name: u8| StOp::SaveGroup { g: 0, nostr, name, epoch: 1, state: 0, admins: 1, last: None, su: 0 };
+    let prelude: Vec<StOp> = match motif {
+        2 => vec![StOp::Snapshot { g: 0, name: 0 }, g0(4, 1)],
+        3 => vec![StOp::Snapshot { g: 0, name: 0 }, g0(0, 2)],
+        _ => vec![],
+    };
+    for op in &prelude {
+        let _ = apply(&*storage, op, now);
+        let _ = model.apply(op, now);
+    }
+    match motif {
+        2 => {
+            plans[0].insert(0, StOp::Rollback { g: 0, name: 0 });
+            plans[1].insert(0, StOp::SaveGroup { g: 2, nostr: 0, name: 3, epoch: 0, state: 0, admins: 1, last: None, su: 0 });
+        }
+        3 => {
+            plans[0].insert(0, StOp::Snapshot { g: 0, name: 0 });
+            plans[1].insert(0, StOp::Rollback { g: 0, name: 0 });
+        }
+        _ => {}
+    }
     let sched = Sched::new(n_threads);
     let history: Arc<Mutex<Vec<HEvent>>> = Arc::new(Mutex::new(vec![]));
     let panics: Arc<Mutex<Vec<String>>> = Arc::new(Mutex::new(vec![]));
@@ -306,6 +332,38 @@ fn run_generic<S: mdk_storage_traits::MdkStorageProvider + Send + Sync + 'static
     for h in handles {
         let _ = h.join();
     }
+    // observation phase: one thread reads everything back, consuming every snapshot on the way
+    // (what a snapshot holds shows only when it is rolled back to); these calls are part of the
+    // history, so the sequential order must explain them as well
+    if progressed {
+        let mut obs: Vec<StOp> = vec![];
+        for g in 0..4u8 {
+            obs.push(StOp::FindGroup { g });
+            obs.push(StOp::Relays { g });
+        }
+        for n in [0u8, 1, 2, 4, 5] {
+            obs.push(StOp::FindByNostr { n });
+        }
+        for g in 0..2u8 {
+            obs.push(StOp::ListSnapshots { g });
+            for name in 0..2u8 {
+                obs.push(StOp::Rollback { g, name });
+                obs.push(StOp::FindGroup { g });
+                obs.push(StOp::Relays { g });
+                obs.push(StOp::GetSecret { g, epoch: 0 });
+                obs.push(StOp::GetSecret { g, epoch: 1 });
+            }
+        }
+        for op in obs {
+            let invoke = sched.stamp();
+            let res = std::panic::catch_unwind(std::panic::AssertUnwindSafe(|| apply(&*storage, &op, now)));
+            let ret = sched.stamp();
+            match res {
+                Ok(v) => history.lock().unwrap().push(HEvent { tid: n_threads, op, invoke, ret, result: v.to_string() }),
+                Err(p) => panics.lock().unwrap().push(format!("observer {op:?}: {}", seam::panic_msg(&p))),
+            }
+        }
+    }
     let hist = history.lock().unwrap().clone();
     let (trace, switches) = {
         let s = sched.m.lock().unwrap();
@@ -336,6 +394,9 @@ fn run_generic<S: mdk_storage_traits::MdkStorageProvider + Send + Sync + 'static
     *out.probes.entry("context_switches_inside_an_operation".into()).or_insert(0) += switches;
     *out.probes.entry("scheduling_steps".into()).or_insert(0) += trace.len() as u64;
     *out.probes.entry(format!("threads_{n_threads}")).or_insert(0) += 1;
+    if motif >= 2 {
+        *out.probes.entry(format!("motif_{}", if motif == 2 { "rollback_vs_id_taken" } else { "retake_vs_rollback" })).or_insert(0) += 1;
+    }
     drop(storage);
     let _: (BTreeMap<u8, u8>, BTreeSet<u8>) = Default::default();
     out
